@@ -16,6 +16,9 @@ def filterOf (id : Nat) : FExpr :=
   | 4 => .not (.not (.thr 0))
   | 5 => .and (.or (.thr 0) (.thr 1)) (.not (.thr 2))
   | 6 => .or (.and (.thr 0) (.thr 1)) (.thr 2)
+  | 7 => .null
+  | 8 => .tagNot ['T']                       -- a user-written filter that looks at the tag
+  | 9 => .and (.thr 0) (.tagNot ['t'])
   | _ => .null
 
 def parseItem (tok : String) : Option Item :=
@@ -48,7 +51,8 @@ def parseItems (items : String) : Option (List Item) :=
 def parseOp (tok : String) : Option Op :=
   match tok.splitOn ":" with
   | ["thr", n, s] => do pure (.setThr (← n.toNat?) (← s.toNat?))
-  | ["st", sev, tag, named, items] => do
+  | ["thrx", n, s] => do pure (.setThr (← n.toNat?) (← s.toNat?))   -- set by another thread: the same threshold
+  | ["st", sev, tag, named, items] | ["stx", sev, tag, named, items] => do   -- stx: executed by another thread
     let tg ← if tag = "~" then some none else (unhex tag).map some
     -- a leading `u`: the statement is executed from a destructor during stack unwinding — the same statement
     let named := if named.startsWith "u" then (named.drop 1).toString else named
@@ -110,6 +114,9 @@ def judge (f : List String) (ans : String) : String :=
         (if ops.any (fun o => match o with | .stmt _ _ its _ => its.any (fun i => match i with | .lazy .. => true | _ => false) | _ => false) then " has-lazy" else "") ++
         (if ops.any (fun o => match o with | .stmt _ _ _ (some _) => true | _ => false) then " named-form" else "") ++
         (if ops.any (fun o => match o with | .overlap .. => true | _ => false) then " overlapping-streams" else "") ++
+        (if ((f.getD 4 "").splitOn "thrx:").length > 1 then " threshold-set-by-another-thread" else "") ++
+        (if ((f.getD 4 "").splitOn "stx:").length > 1 then " statement-on-another-thread" else "") ++
+        (if f.getD 2 "" = "8" ∨ f.getD 2 "" = "9" then " tag-aware-filter" else "") ++
         (if nst ≥ 1 then " nt" else "")
       if ans = want then "ok" ++ feat else "bad:" ++ ans ++ " want " ++ want ++ feat
     | none => "bad-op"
